@@ -16,6 +16,7 @@ func init() {
 		ruleP2(c, "C13.P2")
 		ruleP3(c, "C13.P3")
 		ruleP4(c, "C13.P4")
+		ruleP5(c, "C13.P5")
 	}
 }
 
@@ -295,7 +296,7 @@ func ruleP3(c *Ctx, id string) {
 
 // ruleP4: end-of-directory is reported only when the scan ran off the end.
 func ruleP4(c *Ctx, id string) {
-	V, P, R := c.V, c.P, c.R
+	P, R := c.P, c.R
 	R.Rule(id, "end-of-directory is honest: the scanners return eof = true only along the exit of the scan loop through its own bound test (offset < directory size is false); a page that stops at a limit returns the constant false", 2)
 	for _, spec := range []string{"dir.Apply", "dir.ApplyEnts"} {
 		s := c.fn(id, spec)
@@ -303,66 +304,124 @@ func ruleP4(c *Ctx, id string) {
 			continue
 		}
 		R.Analysed[FuncName(s)] = true
-		offPhi := stepPhi(s, constOfPkg(P, "dir", "DIRENTSZ"))
-		// the bound test: off < dip.Size
-		var bound *Branch
-		for _, br := range branches(s) {
-			br := br
-			n, fl, base, _ := loadedField(br.Cond.Y)
-			if br.Cond.Op == token.LSS && offPhi != nil && br.Cond.X == ssa.Value(offPhi) && n == V.Inode && fl == "Size" && base == ssa.Value(s.Params[0]) {
-				bound = &br
-			}
-		}
+		_, bound := scanBound(c, s)
 		if bound == nil {
 			R.Undecided(id, spec+"|bound test", P.Pos(s.Pos()), "the scan loop tests offset < directory size", "no such test found")
 			continue
 		}
-		ok, why, n := true, "", 0
-		var visit func(v ssa.Value, pred *ssa.BasicBlock, seen map[ssa.Value]bool)
-		visit = func(v ssa.Value, pred *ssa.BasicBlock, seen map[ssa.Value]bool) {
-			if phi, isPhi := v.(*ssa.Phi); isPhi {
-				if seen[phi] {
-					return
-				}
-				seen[phi] = true
-				for i, e := range phi.Edges {
-					if e == ssa.Value(phi) {
-						continue
-					}
-					visit(e, phi.Block().Preds[i], seen)
-				}
+		ok, why, n := trueOnlyViaBound(s, bound)
+		R.Check(ok && n > 0, id, spec+"|eof only at the end", P.Pos(s.Pos()), "the result is true only through the loop's bound test and the constant false at every limit exit", fmt.Sprintf("%d constant sources, true only via the bound test", n), why+": a page that ends before the last entry reports end-of-directory, the remaining entries are never returned")
+	}
+}
+
+
+// scanBound finds, in a directory scanner, the offset variable (a phi stepped
+// by DIRENTSZ) and the loop's bound test "off < dip.Size" (dip = first parameter).
+func scanBound(c *Ctx, s *ssa.Function) (*ssa.Phi, *Branch) {
+	offPhi := stepPhi(s, constOfPkg(c.P, "dir", "DIRENTSZ"))
+	if offPhi == nil {
+		return nil, nil
+	}
+	for _, br := range branches(s) {
+		br := br
+		n, fl, base, _ := loadedField(br.Cond.Y)
+		if br.Cond.Op == token.LSS && br.Cond.X == ssa.Value(offPhi) && n == c.V.Inode && fl == "Size" && base == ssa.Value(s.Params[0]) {
+			return offPhi, &br
+		}
+	}
+	return offPhi, nil
+}
+
+// trueOnlyViaBound: the boolean result of s is built from constants only, and
+// the constant true reaches a return only through the scan loop's bound test.
+func trueOnlyViaBound(s *ssa.Function, bound *Branch) (bool, string, int) {
+	ok, why, n := true, "", 0
+	var visit func(v ssa.Value, pred *ssa.BasicBlock, seen map[ssa.Value]bool)
+	visit = func(v ssa.Value, pred *ssa.BasicBlock, seen map[ssa.Value]bool) {
+		if phi, isPhi := v.(*ssa.Phi); isPhi {
+			if seen[phi] {
 				return
+			}
+			seen[phi] = true
+			for i, e := range phi.Edges {
+				if e == ssa.Value(phi) {
+					continue
+				}
+				visit(e, phi.Block().Preds[i], seen)
+			}
+			return
+		}
+		n++
+		b, isb := constBool(v)
+		if !isb {
+			ok, why = false, "the result is computed ("+v.String()+"), not the constant of an exit"
+			return
+		}
+		if b && pred != nil && pred != bound.Block && !pred.Dominates(bound.Block) {
+			ok, why = false, "the constant true reaches the result from "+pred.String()+", not through the bound test"
+		}
+	}
+	for _, b := range s.Blocks {
+		if r, isR := b.Instrs[len(b.Instrs)-1].(*ssa.Return); isR && len(r.Results) == 1 {
+			res := r.Results[0]
+			if phi, isPhi := res.(*ssa.Phi); isPhi {
+				for i, e := range phi.Edges {
+					pred := phi.Block().Preds[i]
+					if bv, isb := constBool(e); isb && bv && pred != bound.Block {
+						ok, why = false, "true on an exit that is not the bound test"
+					}
+					visit(e, pred, map[ssa.Value]bool{})
+				}
+			} else {
+				visit(res, nil, map[ssa.Value]bool{})
+			}
+		}
+	}
+	return ok, why, n
+}
+
+// ruleP5: every cookie the server hands out is accepted back.  The cookie of
+// the entry in the last slot is the directory size itself (P1: cookie = offset
+// + DIRENTSZ), and a page can end exactly there with eof = false.
+func ruleP5(c *Ctx, id string) {
+	V, P, R := c.V, c.P, c.R
+	R.Rule(id, "handed-out cookies are accepted: a comparison of the request's cookie with the directory size refuses only cookies greater than the size (the last entry's cookie equals the size)", 0)
+	n := 0
+	for _, h := range V.NfsProcs {
+		for _, br := range branches(h) {
+			if br.Cond.X == nil || br.Cond.Y == nil {
+				continue
+			}
+			op, a, b := br.Cond.Op, br.Cond.X, br.Cond.Y
+			isCookie := func(v ssa.Value) bool {
+				_, path := paramFieldPath(v)
+				if path == "Cookie" {
+					return true
+				}
+				if cv, ok := v.(*ssa.Convert); ok {
+					_, p2 := paramFieldPath(cv.X)
+					return p2 == "Cookie"
+				}
+				return false
+			}
+			isSize := func(v ssa.Value) bool {
+				nm, fl, _, _ := loadedField(v)
+				return nm == V.Inode && fl == "Size"
+			}
+			if isSize(a) && isCookie(b) {
+				op, a, b = flipOp(op), b, a
+			}
+			if !isCookie(a) || !isSize(b) {
+				continue
 			}
 			n++
-			b, isb := constBool(v)
-			if !isb {
-				ok, why = false, "eof is computed ("+v.String()+"), not the constant of an exit"
-				return
-			}
-			if b {
-				// true must enter through the loop header: either the initial value (flows into the header's phi)
-				// or the bound test's false edge
-				if pred != nil && pred != bound.Block && !pred.Dominates(bound.Block) {
-					ok, why = false, "the constant true reaches the result from "+pred.String()+", not through the bound test"
-				}
-			}
+			// which side is the error side?  the side from which a BAD_COOKIE / error status store is reached: accept
+			// only the forms whose refusing side is cookie > size
+			okForm := op == token.GTR || op == token.LEQ
+			R.Check(okForm, id, fmt.Sprintf("%s|cookie vs directory size", h.Name()), P.Pos(h.Pos()), "the cookie is compared with the size as cookie > size (refuse) / cookie <= size (accept)", "strict", fmt.Sprintf("the test is cookie %s size: the cookie of the entry in the last slot (= size) is refused with BAD_COOKIE when a page ends exactly there; the enumeration never ends", op))
 		}
-		for _, b := range s.Blocks {
-			if r, isR := b.Instrs[len(b.Instrs)-1].(*ssa.Return); isR && len(r.Results) == 1 {
-				res := r.Results[0]
-				if phi, isPhi := res.(*ssa.Phi); isPhi {
-					for i, e := range phi.Edges {
-						pred := phi.Block().Preds[i]
-						if bv, isb := constBool(e); isb && bv && pred != bound.Block {
-							ok, why = false, "eof = true on an exit that is not the bound test"
-						}
-						visit(e, pred, map[ssa.Value]bool{})
-					}
-				} else {
-					visit(res, nil, map[ssa.Value]bool{})
-				}
-			}
-		}
-		R.Check(ok && n > 0, id, spec+"|eof only at the end", P.Pos(s.Pos()), "the result is true only through the loop's bound test and the constant false at every limit exit", fmt.Sprintf("%d constant sources, true only via the bound test", n), why+": a page that ends before the last entry reports end-of-directory, the remaining entries are never returned")
+	}
+	if n == 0 {
+		R.Pass(id, "handlers|no upper bound on cookies", "?", "no handler compares the cookie with the directory size: every aligned cookie is accepted (a cookie beyond the end yields an empty page with eof)", "nothing to agree")
 	}
 }
